@@ -367,4 +367,484 @@ theorem delManifest_canonical {st : Store} (hc : Canonical st) (n : Name) : Cano
   · simp only [h, if_false] at hm
     exact hc n' m hm
 
+/-! ## createModel -/
+
+/-- `hash` has no collisions (needed only for the SIZE clause of completeness when `NewLayer` finds a file
+    of the same name already present) -/
+def HashInj (env : Env) : Prop := ∀ a b, env.hash a = env.hash b → a = b
+
+theorem Complete.putBlob {env : Env} {st : Store} {l : Layer} (h : Complete env st l) (c : Bytes) :
+    Complete env (putBlob env st c) l := by
+  refine h.mono_blob (fun x hx => ?_)
+  rw [putBlob_blob]
+  by_cases hk : l.digest.key = env.hash c ∧ st.blob (env.hash c) = none
+  · obtain ⟨h1, h2⟩ := hk
+    rw [← h1, hx] at h2; cases h2
+  · simp [hk, hx]
+
+theorem newLayer_complete {env : Env} (hinj : HashInj env) {st : Store} (hb : BlobsOk env st) (c : Bytes)
+    (media : Media) : Complete env (putBlob env st c) ⟨media, ⟨.colon, env.hash c⟩, c.length⟩ := by
+  obtain ⟨c', h1, h2, h3⟩ := putBlob_present env st c
+  have : c' = c := by
+    cases hx : st.blob (env.hash c) with
+    | none => exact h2 hx
+    | some x =>
+      have := h3 x hx
+      subst this
+      exact hinj _ _ (hb _ _ hx)
+  subst this
+  exact ⟨c', h1, rfl, rfl⟩
+
+/-- working-list invariant of `createModel` -/
+structure WL (env : Env) (st : Store) (ls : List Layer) (μs : Media → Prop) : Prop where
+  complete : ∀ l ∈ ls, Complete env st l
+  colon : ∀ l ∈ ls, l.digest.form = .colon
+  ref : ∀ l ∈ ls, μs l.media → st.referenced l.digest = true
+
+theorem replaceLayer_fst (env : Env) (st : Store) (ls : List Layer) (media : Media) (c : Bytes)
+    (href : ∀ l ∈ ls, l.media = media → st.referenced l.digest = true) :
+    (replaceLayer env st ls media c).1 = putBlob env st c := by
+  unfold replaceLayer newLayer
+  simp only
+  rw [removeLayers_noop]
+  intro l hl
+  simp only [List.mem_filter, decide_eq_true_eq] at hl
+  exact href l hl.1 hl.2
+
+theorem replaceLayer_snd (env : Env) (st : Store) (ls : List Layer) (media : Media) (c : Bytes) :
+    (replaceLayer env st ls media c).2 =
+      ls.filter (fun l => l.media ≠ media) ++ [⟨media, ⟨.colon, env.hash c⟩, c.length⟩] := by
+  unfold replaceLayer newLayer
+  rfl
+
+theorem replaceLayer_WL {env : Env} (hinj : HashInj env) {st : Store} {ls : List Layer} {μs : Media → Prop}
+    (hb : BlobsOk env st) (w : WL env st ls μs) (media : Media) (hμ : μs media) (c : Bytes) :
+    (replaceLayer env st ls media c).1 = putBlob env st c ∧
+    WL env (putBlob env st c) (replaceLayer env st ls media c).2 (fun x => μs x ∧ x ≠ media) := by
+  have h1 := replaceLayer_fst env st ls media c (fun l hl hm => w.ref l hl (hm ▸ hμ))
+  refine ⟨h1, ?_⟩
+  rw [replaceLayer_snd]
+  refine ⟨?_, ?_, ?_⟩
+  · intro l hl
+    simp only [List.mem_append, List.mem_filter, List.mem_singleton] at hl
+    rcases hl with hl | hl
+    · exact (w.complete l hl.1).putBlob c
+    · subst hl; exact newLayer_complete hinj hb c media
+  · intro l hl
+    simp only [List.mem_append, List.mem_filter, List.mem_singleton] at hl
+    rcases hl with hl | hl
+    · exact w.colon l hl.1
+    · subst hl; rfl
+  · intro l hl hm
+    simp only [List.mem_append, List.mem_filter, List.mem_singleton] at hl
+    rw [referenced_congr (putBlob_mans env st c)]
+    rcases hl with hl | hl
+    · exact w.ref l hl.1 hm.1
+    · subst hl; exact absurd rfl hm.2
+
+theorem WL.weaken {env : Env} {st : Store} {ls : List Layer} {μs μs' : Media → Prop} (w : WL env st ls μs)
+    (h : ∀ x, μs' x → μs x) : WL env st ls μs' :=
+  ⟨w.complete, w.colon, fun l hl hm => w.ref l hl (h _ hm)⟩
+
+theorem stepTemplate_spec {env : Env} (hinj : HashInj env) {st : Store} {ls : List Layer} {μs : Media → Prop}
+    (hb : BlobsOk env st) (w : WL env st ls μs) (hμ : μs .template) (t : Option (Bytes × Bool)) :
+    BlobStep env st (stepTemplate env st ls t).1 ∧
+    ∀ ls', (stepTemplate env st ls t).2 = some ls' →
+      WL env (stepTemplate env st ls t).1 ls' (fun x => μs x ∧ x ≠ .template) := by
+  cases t with
+  | none =>
+    simp only [stepTemplate]
+    exact ⟨BlobStep.refl env st, fun ls' h => by injection h with e; subst e; exact w.weaken (fun _ h => h.1)⟩
+  | some tb =>
+    obtain ⟨t, ok⟩ := tb
+    cases ok with
+    | false =>
+      simp only [stepTemplate, Bool.false_eq_true, if_false]
+      rw [removeLayers_noop]
+      · exact ⟨BlobStep.refl env st, fun ls' h => by cases h⟩
+      · intro l hl
+        simp only [List.mem_filter, decide_eq_true_eq] at hl
+        exact w.ref l hl.1 (hl.2 ▸ hμ)
+    | true =>
+      simp only [stepTemplate, if_true]
+      obtain ⟨e1, w1⟩ := replaceLayer_WL hinj hb w .template hμ t
+      rw [e1]
+      exact ⟨putBlob_step env st t, fun ls' h => by injection h with e; subst e; exact w1⟩
+
+theorem stepSystem_spec {env : Env} (hinj : HashInj env) {st : Store} {ls : List Layer} {μs : Media → Prop}
+    (hb : BlobsOk env st) (w : WL env st ls μs) (hμ : μs .system) (s : Option Bytes) :
+    BlobStep env st (stepSystem env st ls s).1 ∧
+      WL env (stepSystem env st ls s).1 (stepSystem env st ls s).2 (fun x => μs x ∧ x ≠ .system) := by
+  cases s with
+  | none =>
+    simp only [stepSystem]
+    exact ⟨BlobStep.refl env st, w.weaken (fun _ h => h.1)⟩
+  | some s =>
+    simp only [stepSystem]
+    obtain ⟨e1, w1⟩ := replaceLayer_WL hinj hb w .system hμ s
+    rw [e1]
+    exact ⟨putBlob_step env st s, w1⟩
+
+theorem stepParams_spec {env : Env} (hinj : HashInj env) {st : Store} {ls : List Layer} {μs : Media → Prop}
+    (hb : BlobsOk env st) (w : WL env st ls μs) (hμ : μs .params) (p : List (String × String)) :
+    BlobStep env st (stepParams env st ls p).1 ∧
+    ∀ ls', (stepParams env st ls p).2 = some ls' →
+      WL env (stepParams env st ls p).1 ls' (fun x => μs x ∧ x ≠ .params) := by
+  unfold stepParams
+  split
+  · exact ⟨BlobStep.refl env st, fun ls' h => by cases h⟩
+  · exact ⟨BlobStep.refl env st, fun ls' h => by injection h with e; subst e; exact w.weaken (fun _ h => h.1)⟩
+  · rename_i q _ _
+    obtain ⟨e1, w1⟩ := replaceLayer_WL hinj hb w .params hμ (encodeParams q)
+    simp only
+    rw [e1]
+    exact ⟨putBlob_step env st _, fun ls' h => by injection h with e; subst e; exact w1⟩
+
+/-- what `createModel` does to the store: only `NewLayer` writes, then (on success) one manifest whose
+    layers are all complete -/
+theorem createModel_spec {env : Env} (hinj : HashInj env) {st : Store} (name : Name)
+    (base : List (Layer × Option Meta)) (r : CreateReq) (hb : BlobsOk env st)
+    (w : WL env st (base.map (·.1)) (fun x => x = .template ∨ x = .system ∨ x = .params)) :
+    ∃ st0, BlobStep env st st0 ∧
+      (((createModel env st name base r).1 = st0 ∧ (createModel env st name base r).2.isSome = true) ∨
+       (∃ m, (createModel env st name base r) = (setManifest st0 name (.readable m), none) ∧ CanonM m ∧
+          ∀ l ∈ m.all, Complete env st0 l)) := by
+  unfold createModel
+  simp only
+  obtain ⟨s1, w1⟩ := stepTemplate_spec hinj hb w (Or.inl rfl) r.template
+  cases h1 : stepTemplate env st (base.map (·.1)) r.template with
+  | mk st1 o1 =>
+    rw [h1] at s1 w1
+    simp only at s1 w1
+    cases o1 with
+    | none => exact ⟨st1, s1, Or.inl ⟨rfl, rfl⟩⟩
+    | some l1 =>
+      simp only
+      have w1 := w1 l1 rfl
+      have hb1 := s1.blobsOk hb
+      obtain ⟨s2, w2⟩ := stepSystem_spec hinj hb1 w1 ⟨Or.inr (Or.inl rfl), by decide⟩ r.system
+      cases h2 : stepSystem env st1 l1 r.system with
+      | mk st2 l2 =>
+        rw [h2] at s2 w2
+        simp only at s2 w2
+        have hb2 := s2.blobsOk hb1
+        obtain ⟨s3, w3⟩ := stepParams_spec hinj hb2 w2 ⟨⟨Or.inr (Or.inr rfl), by decide⟩, by decide⟩ r.params
+        cases h3 : stepParams env st2 l2 r.params with
+        | mk st3 o3 =>
+          rw [h3] at s3 w3
+          simp only at s3 w3
+          cases o3 with
+          | none => exact ⟨st3, (s1.trans s2).trans s3, Or.inl ⟨rfl, rfl⟩⟩
+          | some l3 =>
+            simp only
+            have w3 := w3 l3 rfl
+            have hb3 := s3.blobsOk hb2
+            let cb := configJSON (base.filterMap (·.2)) (l3.map (·.digest))
+            refine ⟨putBlob env st3 cb, ((s1.trans s2).trans s3).trans (putBlob_step env st3 cb), Or.inr ?_⟩
+            refine ⟨⟨⟨.config, ⟨.colon, env.hash cb⟩, cb.length⟩, l3⟩, rfl, ?_, ?_⟩
+            · intro l hl
+              simp only [Manifest.all, List.mem_append, List.mem_singleton] at hl
+              rcases hl with hl | hl
+              · exact w3.colon l hl
+              · subst hl; rfl
+            · intro l hl
+              simp only [Manifest.all, List.mem_append, List.mem_singleton] at hl
+              rcases hl with hl | hl
+              · exact (w3.complete l hl).putBlob cb
+              · subst hl; exact newLayer_complete hinj hb3 cb .config
+
+/-! ## base layers of a create request -/
+
+def μ3 : Media → Prop := fun x => x = .template ∨ x = .system ∨ x = .params
+
+theorem fromLayers_WL {env : Env} {st : Store} (hb : BlobsOk env st) (ls : List Layer)
+    (hcol : ∀ l ∈ ls, l.digest.form = .colon) (href : ∀ l ∈ ls, st.referenced l.digest = true) :
+    ∀ b, fromLayers env st ls = some b → WL env st (b.map (·.1)) μ3 := by
+  induction ls with
+  | nil =>
+    intro b h
+    simp only [fromLayers] at h
+    injection h with e; subst e
+    exact ⟨by simp, by simp, by simp⟩
+  | cons l t ih =>
+    intro b h
+    have iht := ih (fun x hx => hcol x (by simp [hx])) (fun x hx => href x (by simp [hx]))
+    simp only [fromLayers] at h
+    cases hc : st.blob l.digest.key with
+    | none => simp [hc] at h
+    | some c =>
+      simp only [hc] at h
+      have hl' : Complete env st ⟨l.media, l.digest, c.length⟩ := ⟨c, hc, rfl, hb _ _ hc⟩
+      have key : ∀ (mt : Option Meta) (r : List (Layer × Option Meta)), fromLayers env st t = some r →
+          WL env st (((⟨l.media, l.digest, c.length⟩, mt) :: r).map (·.1)) μ3 := by
+        intro mt r hr
+        have w := iht r hr
+        refine ⟨?_, ?_, ?_⟩
+        · intro x hx
+          simp only [List.map_cons, List.mem_cons] at hx
+          rcases hx with hx | hx
+          · subst hx; exact hl'
+          · exact w.complete x hx
+        · intro x hx
+          simp only [List.map_cons, List.mem_cons] at hx
+          rcases hx with hx | hx
+          · subst hx; exact hcol l (by simp)
+          · exact w.colon x hx
+        · intro x hx hm
+          simp only [List.map_cons, List.mem_cons] at hx
+          rcases hx with hx | hx
+          · subst hx; exact href l (by simp)
+          · exact w.ref x hx hm
+      split at h
+      · cases hg : env.gguf c with
+        | none => simp [hg] at h
+        | some mt =>
+          simp only [hg] at h
+          cases hr : fromLayers env st t with
+          | none => simp [hr] at h
+          | some r =>
+            simp only [hr, Option.map_some] at h
+            injection h with e; subst e
+            exact key _ r hr
+      · cases hr : fromLayers env st t with
+        | none => simp [hr] at h
+        | some r =>
+          simp only [hr, Option.map_some] at h
+          injection h with e; subst e
+          exact key _ r hr
+
+theorem fileLayers_WL {env : Env} {st : Store} (hb : BlobsOk env st) (ds : List Digest)
+    (hcol : ∀ d ∈ ds, d.form = .colon) :
+    ∀ b, fileLayers env st ds = .ok b → WL env st (b.map (·.1)) μ3 := by
+  induction ds with
+  | nil =>
+    intro b h
+    simp only [fileLayers] at h
+    injection h with e; subst e
+    exact ⟨by simp, by simp, by simp⟩
+  | cons d t ih =>
+    intro b h
+    have iht := ih (fun x hx => hcol x (by simp [hx]))
+    simp only [fileLayers] at h
+    cases hc : st.blob d.key with
+    | none => simp [hc] at h
+    | some c =>
+      simp only [hc] at h
+      cases hg : env.gguf c with
+      | none => simp [hg] at h
+      | some mt =>
+        simp only [hg] at h
+        cases hr : fileLayers env st t with
+        | error e => simp [hr] at h
+        | ok r =>
+          simp only [hr] at h
+          injection h with e; subst e
+          have w := iht r hr
+          refine ⟨?_, ?_, ?_⟩
+          · intro x hx
+            simp only [List.map_cons, List.mem_cons] at hx
+            rcases hx with hx | hx
+            · subst hx; exact ⟨c, hc, rfl, hb _ _ hc⟩
+            · exact w.complete x hx
+          · intro x hx
+            simp only [List.map_cons, List.mem_cons] at hx
+            rcases hx with hx | hx
+            · subst hx; exact hcol d (by simp)
+            · exact w.colon x hx
+          · intro x hx hm
+            simp only [List.map_cons, List.mem_cons] at hx
+            rcases hx with hx | hx
+            · subst hx
+              rcases hm with hm | hm | hm <;> cases hm
+            · exact w.ref x hx hm
+
+theorem WL.nil (env : Env) (st : Store) (μs : Media → Prop) : WL env st [] μs :=
+  ⟨by simp, by simp, by simp⟩
+
+theorem baseLayers_WL {env : Env} {st : Store} (hc : Canonical st) (hb : BlobsOk env st) (r : CreateReq)
+    (hf : ∀ d ∈ r.files, d.form = .colon) (frev : Bool) :
+    ∀ b, (baseLayers env st r frev).1 = some b → WL env st (b.map (·.1)) μ3 := by
+  intro b h
+  unfold baseLayers at h
+  cases hs : r.src with
+  | some f =>
+    simp only [hs] at h
+    cases hm : st.readableAt f with
+    | none =>
+      simp only [hm] at h
+      injection h with e; subst e; exact WL.nil _ _ _
+    | some m =>
+      simp only [hm] at h
+      have hm' := readableAt_eq_some.mp hm
+      cases hfl : fromLayers env st m.layers with
+      | none =>
+        simp only [hfl] at h
+        injection h with e; subst e; exact WL.nil _ _ _
+      | some b' =>
+        simp only [hfl] at h
+        injection h with e; subst e
+        refine fromLayers_WL hb m.layers ?_ ?_ b' hfl
+        · intro l hl; exact hc f m hm' l (by simp [Manifest.all, hl])
+        · intro l hl
+          exact referenced_iff.mpr ⟨f, m, hm', l, by simp [Manifest.all, hl], rfl⟩
+  | none =>
+    simp only [hs] at h
+    split at h
+    · cases h
+    · cases hfl : fileLayers env st (if frev = true then r.files.reverse else r.files) with
+      | error e => simp [hfl] at h
+      | ok b' =>
+        simp only [hfl] at h
+        injection h with e; subst e
+        refine fileLayers_WL hb _ ?_ b' hfl
+        intro d hd
+        cases frev with
+        | true => exact hf d (by simpa using hd)
+        | false => exact hf d (by simpa using hd)
+
+/-! ## `Good`: invariant preservation + frame, per operation -/
+
+/-- what every operation is shown to be, relative to the set `T` of names it may write -/
+structure Good (env : Env) (st st' : Store) (T : List Name) : Prop where
+  blobsOk : BlobsOk env st'
+  nameInv : NameInv env st → NameInv env st'
+  canon : Canonical st'
+  frameMan : ∀ n, n ∉ T → st'.man n = st.man n
+  frameBlob : ∀ n m, n ∉ T → st.man n = some (.readable m) → ∀ l ∈ m.all, ∀ c,
+    st.blob l.digest.key = some c → st'.blob l.digest.key = some c
+
+theorem Good.refl {env : Env} {st : Store} (hb : BlobsOk env st) (hc : Canonical st) (T : List Name) :
+    Good env st st T :=
+  ⟨hb, id, hc, fun _ _ => rfl, fun _ _ _ _ _ _ _ h => h⟩
+
+theorem Good.ofBlobStep {env : Env} {st st' : Store} (h : BlobStep env st st') (hb : BlobsOk env st)
+    (hc : Canonical st) (T : List Name) : Good env st st' T :=
+  ⟨h.blobsOk hb, h.nameInv, h.canonical hc, fun n _ => man_congr h.mans n,
+   fun _ _ _ hm _ hl _ hc' => h.keep hm hl hc'⟩
+
+theorem Good.trans {env : Env} {a b c : Store} {T : List Name} (h1 : Good env a b T) (h2 : Good env b c T) :
+    Good env a c T :=
+  ⟨h2.blobsOk, fun h => h2.nameInv (h1.nameInv h), h2.canon,
+   fun n hn => (h2.frameMan n hn).trans (h1.frameMan n hn),
+   fun n m hn hm l hl c hc =>
+     h2.frameBlob n m hn ((h1.frameMan n hn).trans hm) l hl c (h1.frameBlob n m hn hm l hl c hc)⟩
+
+theorem Good.mono {env : Env} {st st' : Store} {T T' : List Name} (h : Good env st st' T)
+    (hT : ∀ n, n ∈ T → n ∈ T') : Good env st st' T' :=
+  ⟨h.blobsOk, h.nameInv, h.canon, fun n hn => h.frameMan n (fun h' => hn (hT n h')),
+   fun n m hn => h.frameBlob n m (fun h' => hn (hT n h'))⟩
+
+theorem Good.setManifest {env : Env} {st : Store} (hb : BlobsOk env st) (hc : Canonical st) (n : Name)
+    (f : MFile) (hf : ∀ m, f = .readable m → CanonM m ∧ ∀ l ∈ m.all, Complete env st l) :
+    Good env st (setManifest st n f) [n] := by
+  refine ⟨hb, fun hi => setManifest_nameInv hi n f (fun m e => (hf m e).2),
+    setManifest_canonical hc n f (fun m e => (hf m e).1), ?_, ?_⟩
+  · intro n' hn'
+    rw [setManifest_man]
+    simp only [List.mem_singleton] at hn'
+    simp [hn']
+  · intro _ _ _ _ _ _ c h; exact h
+
+theorem Good.delManifest {env : Env} {st : Store} (hb : BlobsOk env st) (hc : Canonical st) (n : Name) :
+    Good env st (delManifest st n) [n] := by
+  refine ⟨hb, fun hi => delManifest_nameInv hi n, delManifest_canonical hc n, ?_, ?_⟩
+  · intro n' hn'
+    rw [delManifest_man]
+    simp only [List.mem_singleton] at hn'
+    simp [hn']
+  · intro _ _ _ _ _ _ c h; exact h
+
+/-! ## the operations -/
+
+theorem deleteAt_good {env : Env} {st : Store} (hb : BlobsOk env st) (hc : Canonical st) (t : Name) :
+    Good env st (deleteAt st t).1 [t] := by
+  unfold deleteAt
+  cases hm : st.man t with
+  | none => exact Good.refl hb hc _
+  | some f =>
+    cases f with
+    | corrupt => exact Good.refl hb hc _
+    | readable m =>
+      simp only
+      have g1 := Good.delManifest hb hc t
+      have hcm : CanonM m := hc t m hm
+      exact g1.trans (Good.ofBlobStep (removeLayers_step env m.all g1.canon hcm) g1.blobsOk g1.canon _)
+
+theorem copyAt_good {env : Env} {st : Store} (hb : BlobsOk env st) (hc : Canonical st) (hi : NameInv env st)
+    (s d : Name) : Good env st (copyAt st s d).1 [d] := by
+  unfold copyAt
+  split
+  · exact Good.refl hb hc _
+  · cases hm : st.man s with
+    | none => exact Good.refl hb hc _
+    | some f =>
+      simp only
+      exact Good.setManifest hb hc d f (fun m e => ⟨hc s m (e ▸ hm), hi s m (e ▸ hm)⟩)
+
+theorem upload_good {env : Env} {st : Store} (hb : BlobsOk env st) (hc : Canonical st) (d : Digest) (c : Bytes) :
+    Good env st (upload env st d c).1 [] := by
+  unfold upload
+  split
+  · exact Good.refl hb hc _
+  · split <;> exact Good.ofBlobStep (putBlob_step env st c) hb hc _
+
+theorem pruneLayers_blob (st : Store) (k : String) :
+    (pruneLayers st).blob k = if st.referenced ⟨.colon, k⟩ then st.blob k else none := by
+  unfold pruneLayers Store.blob
+  exact aget_filter_key st.blobs (fun k => st.referenced ⟨.colon, k⟩) k
+
+theorem pruneLayers_step (env : Env) {st : Store} (hc : Canonical st) : BlobStep env st (pruneLayers st) := by
+  refine ⟨rfl, fun k => ?_⟩
+  rw [pruneLayers_blob]
+  cases hr : st.referenced ⟨.colon, k⟩ with
+  | true => exact Or.inl rfl
+  | false =>
+    refine Or.inr ⟨Or.inl ?_, by simp⟩
+    cases hk : st.keyReferenced k with
+    | false => rfl
+    | true =>
+      have := hc.referenced_of_key (d := ⟨.colon, k⟩) rfl hk
+      rw [hr] at this; cases this
+
+theorem pruneStartup_good {env : Env} {st : Store} (hb : BlobsOk env st) (hc : Canonical st) :
+    Good env st (pruneStartup st).1 [] := by
+  unfold pruneStartup
+  split
+  · exact Good.refl hb hc _
+  · exact Good.ofBlobStep (pruneLayers_step env hc) hb hc _
+
+theorem createAt_good {env : Env} (hinj : HashInj env) {st : Store} (hb : BlobsOk env st) (hc : Canonical st)
+    (r : CreateReq) (hf : ∀ d ∈ r.files, d.form = .colon) (name : Name) (frev : Bool) :
+    Good env st (createAt env st r name frev).1 [name] := by
+  unfold createAt
+  simp only
+  cases hbl : baseLayers env st r frev with
+  | mk ob ev =>
+    cases ob with
+    | none => exact Good.refl hb hc _
+    | some base =>
+      simp only
+      have w := baseLayers_WL hc hb r hf frev base (by rw [hbl])
+      obtain ⟨st0, s0, h⟩ := createModel_spec hinj name base r hb w
+      have g0 : Good env st st0 [name] := Good.ofBlobStep s0 hb hc _
+      rcases h with ⟨e1, e2⟩ | ⟨m, e, hcm, hcomp⟩
+      · cases hcm : createModel env st name base r with
+        | mk st1 o =>
+          rw [hcm] at e1 e2
+          simp only at e1 e2
+          cases o with
+          | none => cases e2
+          | some err => simp only; rw [e1]; exact g0
+      · rw [e]
+        simp only
+        have g1 : Good env st0 (setManifest st0 name (.readable m)) [name] :=
+          Good.setManifest g0.blobsOk g0.canon name _ (fun m' e' => by injection e' with e''; subst e''; exact ⟨hcm, hcomp⟩)
+        have g01 := g0.trans g1
+        cases hold : st.readableAt name with
+        | none => exact g01
+        | some mo =>
+          simp only
+          have hmo : CanonM mo := hc name mo (readableAt_eq_some.mp hold)
+          exact g01.trans (Good.ofBlobStep (removeLayers_step env mo.all g01.canon hmo) g01.blobsOk g01.canon _)
+
 end OllamaVerif.Store
